@@ -65,40 +65,53 @@ func main() {
 	}
 }
 
+// combine merges the flattened fields of each nested struct back into a single
+// field, so that nested structs are moved as a whole.
 func combine(fields []st.Field) []st.Field {
-	new := st.Field{}
-	cur := ""
 	var out []st.Field
-	wasPad := true
+	cur := ""
+	lastSize := int64(0)
+	finish := func() {
+		if len(out) == 0 {
+			return
+		}
+		g := &out[len(out)-1]
+		if g.Type == "struct" {
+			// The size of a struct includes the byte that follows a
+			// zero-size last field, and is a multiple of its alignment.
+			if lastSize == 0 && g.End > g.Start {
+				g.End++
+			}
+			g.End = g.Start + align(g.End-g.Start, g.Align)
+		}
+		g.Size = g.End - g.Start
+	}
 	for _, field := range fields {
-		var prefix string
 		if field.IsPadding {
-			wasPad = true
 			continue
 		}
 		p := strings.Split(field.Name, ".")
-		prefix = strings.Join(p[:2], ".")
-		if field.Align > new.Align {
-			new.Align = field.Align
-		}
-		if !wasPad {
-			new.End = field.Start
-			new.Size = new.End - new.Start
-		}
-		if prefix != cur {
-			if cur != "" {
-				out = append(out, new)
-			}
+		prefix := strings.Join(p[:2], ".")
+		if len(p) == 2 || prefix != cur {
+			// first (or only) field of the next top-level field
+			finish()
 			cur = prefix
-			new = field
-			new.Name = prefix
+			g := field
+			g.Name = prefix
+			if len(p) > 2 {
+				g.Type = "struct"
+			}
+			out = append(out, g)
 		} else {
-			new.Type = "struct"
+			g := &out[len(out)-1]
+			if field.Align > g.Align {
+				g.Align = field.Align
+			}
+			g.End = field.End
 		}
-		wasPad = false
+		lastSize = field.Size
 	}
-	new.Size = new.End - new.Start
-	out = append(out, new)
+	finish()
 	return out
 }
 
